@@ -75,7 +75,9 @@ def cases_for(prop, tier, seed):
     if prop == "C05":
         return gen.fam_unsub_positions(g, "C05-unsub", 40 * k) + gen.fam_hot(g, "C05-hot", 100 * k)
     if prop == "C06":
-        return gen.fam_teardown(g, "C06-td", 100 * k) + [c for c in gen.fam_combinators(g, "C06-comb", 60 * k) if "flat_map" in c or "(unsub" in c]
+        return (gen.fam_teardown(g, "C06-td", 100 * k) + [c for c in gen.fam_combinators(g, "C06-comb", 60 * k) if "flat_map" in c or "(unsub" in c] +
+                # the shared source of a connectable is a source subscribed on the subscribers' behalf: it must stop when the last one left
+                [c for c in gen.fam_connectables(g, "C06-conn", 40 * k) + gen.fam_conn_reentrant(g, "C06-cre", 0) if "ref_count" in c or "replay" in c])
     if prop == "C07":
         return (gen.fam_reentrant(g, "C07-re", 10) + gen.fam_teardown(g, "C07-td", 30 * k) +
                 gen.fam_connectables(g, "C07-conn", 30 * k) + gen.fam_conn_reentrant(g, "C07-cre", 0) + gen.fam_subjects(g, "C07-subj", 20 * k) +
